@@ -1069,7 +1069,7 @@ def _lst_names(spec):
 # ----------------------------------------------------------------------------------- C16
 
 FAULT_KINDS = ["ValueError", "ZeroDivisionError", "MemoryError", "StopIteration", "KeyboardInterrupt", "SystemExit",
-               "GeneratorExit", "SimFault"]
+               "GeneratorExit", "SimFault", "OverflowError", "FloatingPointError", "LibraryIndexError"]
 _TWIN_CACHE = {}
 
 
